@@ -123,20 +123,20 @@ func disSubset(r *gen.Rand, names []string, k int) []string {
 	return D
 }
 
-func disModelCases(c *Ctx, names []string) {
+func disModelCases(c *Ctx, rnd *gen.Rand, names []string) {
 	n := 300 * c.Scale
 	for i := 0; i < n; i++ {
-		D := disSubset(c.R, names, c.R.Intn(7))
+		D := disSubset(c.R, names, rnd.Intn(7))
 		var name string
 		inD := false
-		switch k := c.R.Intn(3); {
+		switch k := rnd.Intn(3); {
 		case k == 0 && len(D) > 0:
-			name = D[c.R.Intn(len(D))]
+			name = D[rnd.Intn(len(D))]
 			inD = true
 		case k == 1:
-			name = disOtherIdents[c.R.Intn(len(disOtherIdents))]
+			name = disOtherIdents[rnd.Intn(len(disOtherIdents))]
 		default:
-			name = names[c.R.Intn(len(names))]
+			name = names[rnd.Intn(len(names))]
 			for _, d := range D {
 				if d == name {
 					inD = true
@@ -1116,15 +1116,18 @@ func init() {
 			c.Rule("A (model-tied): random D (0..6 builtin names, never :makeArray) and a name n (member of D / other builtin / non-builtin identifier); the answer is how `return n` compiles with D disabled (GETBUILTIN index, unresolved reference, other). " +
 				"B (oracle, independent PRNG fork per case): D of 1..5 names biased to the names the templates can call, a target t in D, a reference expression (call of t with constant arguments, possibly inside a foldable constant expression, or a bare read / argument pass), a statement form (assign, define, var, const, return, argument, array/map element, conditional-expression branch with a runtime condition, if condition), an inner placement (top level, called function, closure two levels deep capturing an outer local, if/else/for/for-in/try/catch/finally body, const initializer, folded constant) and a file placement (main script, imported source module, module imported by a module, 2nd/3rd fragment of an Eval session, module imported by a later fragment); in 40% of the cases the script also declares t (:=, var, const, destructuring, param, global, function parameter, for-in key/value, catch identifier) either in scope of the reference or out of scope (ended block/function, after the reference, between function definition and call, other file, other fragment); optimizer on/off at random. Every script is first compiled with nothing disabled (must compile, else counted gen-invalid and skipped). Checked: never-declared => compile error `unresolved reference \"t\"`; any produced bytecode (Main and every CompiledFunction constant, every fragment) has no GETBUILTIN of a name in D; BuiltinObjects entries of D are replaced by counting wrappers before compilation and no wrapper is called during compilation or the run. Plus disable-after-use: one symbol table, first script/fragment uses t, host disables t, second script/fragment must not compile.")
 			names := disNames()
-			disModelCases(c, names)
+			// gen.NewRand(seed+1) is gen.NewRand(seed) advanced by one step, so
+			// consecutive seeds would replay the same forks shifted by one case;
+			// a forked root (state = a mixed output) decorrelates the seeds.
+			root := c.R.Fork()
+			disModelCases(c, root.Fork(), names)
 			n := 1500 * c.Scale
 			for i := 0; i < n; i++ {
-				r := c.R.Fork()
-				disCheck(c, disGenerate(r, names))
+				disCheck(c, disGenerate(root.Fork(), names))
 			}
 			m := 200 * c.Scale
 			for i := 0; i < m; i++ {
-				disAfterUseCase(c, c.R.Fork(), names)
+				disAfterUseCase(c, root.Fork(), names)
 			}
 		},
 		Replay: disReplay,
